@@ -14,6 +14,8 @@ import (
 	"os"
 	"os/exec"
 	"strings"
+	"sync"
+	"sync/atomic"
 	"time"
 
 	"verifharness/internal/rep"
@@ -47,7 +49,35 @@ func workerMain(total int, from, to int, describe func(int) interface{}, run fun
 }
 
 // parentLoop drives workers over [0,total) and aggregates into rp and the stream files.
+// The index space is split into `parallel` contiguous chunks that run concurrently; the
+// outputs are written in index order, so the result does not depend on the parallelism.
 func parentLoop(comp string, dir string, total int, args []string, rp *rep.Report, streams []string, crashProps []string, perScenarioTimeout time.Duration) {
+	parentLoopN(comp, dir, total, args, rp, streams, crashProps, perScenarioTimeout, 1)
+}
+
+func parentLoopN(comp string, dir string, total int, args []string, rp *rep.Report, streams []string, crashProps []string, perScenarioTimeout time.Duration, parallel int) {
+	if parallel < 1 {
+		parallel = 1
+	}
+	if parallel > total {
+		parallel = total
+	}
+	results := make([]*scenarioOut, total)
+	var mu sync.Mutex
+	var wg sync.WaitGroup
+	for w := 0; w < parallel; w++ {
+		lo, hi := w*total/parallel, (w+1)*total/parallel
+		wg.Add(1)
+		go func(lo, hi int) {
+			defer wg.Done()
+			runChunk(comp, lo, hi, args, rp, crashProps, perScenarioTimeout, func(o *scenarioOut) {
+				mu.Lock()
+				results[o.Idx] = o
+				mu.Unlock()
+			})
+		}(lo, hi)
+	}
+	wg.Wait()
 	files := map[string][2]*rep.Lines{}
 	for _, st := range streams {
 		in, err := rep.Create(fmt.Sprintf("%s/%s.%s.inputs.txt", dir, comp, st))
@@ -56,10 +86,44 @@ func parentLoop(comp string, dir string, total int, args []string, rp *rep.Repor
 		must(err)
 		files[st] = [2]*rep.Lines{in, im}
 	}
-	next := 0
+	for _, o := range results {
+		if o == nil {
+			continue
+		}
+		for st, ll := range o.Streams {
+			f, ok := files[st]
+			if !ok {
+				continue
+			}
+			for _, l := range ll[0] {
+				f[0].Println(l)
+			}
+			for _, l := range ll[1] {
+				f[1].Println(l)
+			}
+		}
+		rp.Case(o.Key)
+		for k, v := range o.Counters {
+			rp.Add(k, v)
+		}
+		if o.Sample != nil {
+			rp.Sample(o.Sample)
+		}
+		for _, v := range o.Violations {
+			rp.Violate(v)
+		}
+	}
+	for _, f := range files {
+		must(f[0].Close())
+		must(f[1].Close())
+	}
+}
+
+func runChunk(comp string, lo, hi int, args []string, rp *rep.Report, crashProps []string, perScenarioTimeout time.Duration, emit func(*scenarioOut)) {
+	next := lo
 	crashes := 0
-	for next < total {
-		cmd := exec.Command(os.Args[0], append([]string{comp}, append(args, "-worker", fmt.Sprintf("%d:%d", next, total))...)...)
+	for next < hi {
+		cmd := exec.Command(os.Args[0], append([]string{comp}, append(args, "-worker", fmt.Sprintf("%d:%d", next, hi))...)...)
 		var stderr bytes.Buffer
 		cmd.Stderr = &stderr
 		cmd.Env = append(os.Environ(), "GOTRACEBACK=single")
@@ -70,7 +134,8 @@ func parentLoop(comp string, dir string, total int, args []string, rp *rep.Repor
 		sc.Buffer(make([]byte, 1<<20), 1<<28)
 		running := -1
 		var runningDesc interface{}
-		lastProgress := time.Now()
+		var lp atomic.Value
+		lp.Store(time.Now())
 		done := make(chan struct{})
 		go func() {
 			t := time.NewTicker(time.Second)
@@ -80,7 +145,7 @@ func parentLoop(comp string, dir string, total int, args []string, rp *rep.Repor
 				case <-done:
 					return
 				case <-t.C:
-					if time.Since(lastProgress) > perScenarioTimeout {
+					if time.Since(lp.Load().(time.Time)) > perScenarioTimeout {
 						cmd.Process.Signal(os.Interrupt)
 						time.Sleep(200 * time.Millisecond)
 						cmd.Process.Kill()
@@ -94,52 +159,30 @@ func parentLoop(comp string, dir string, total int, args []string, rp *rep.Repor
 			if json.Unmarshal(sc.Bytes(), &o) != nil {
 				continue
 			}
-			lastProgress = time.Now()
+			lp.Store(time.Now())
 			if o.Begin {
 				running, runningDesc = o.Idx, o.Desc
 				continue
 			}
 			running = -1
 			next = o.Idx + 1
-			for st, ll := range o.Streams {
-				f, ok := files[st]
-				if !ok {
-					continue
-				}
-				for _, l := range ll[0] {
-					f[0].Println(l)
-				}
-				for _, l := range ll[1] {
-					f[1].Println(l)
-				}
-			}
-			rp.Case(o.Key)
-			for k, v := range o.Counters {
-				rp.Add(k, v)
-			}
-			if o.Sample != nil {
-				rp.Sample(o.Sample)
-			}
-			for _, v := range o.Violations {
-				rp.Violate(v)
-			}
+			oc := o
+			emit(&oc)
 		}
 		err = cmd.Wait()
 		close(done)
 		if running >= 0 {
-			// the worker died (or hung) inside scenario `running`
 			crashes++
 			head := panicHead(stderr.String())
 			what := "process crashed while running the scenario: " + head
 			kind := "crash"
-			if time.Since(lastProgress) > perScenarioTimeout {
+			if time.Since(lp.Load().(time.Time)) > perScenarioTimeout {
 				what = fmt.Sprintf("scenario did not finish within %s (hang)", perScenarioTimeout)
 				kind = "hang"
-				head = "hang"
 			}
 			for _, p := range crashProps {
 				rp.Violate(rep.Violation{Property: p, Monitor: "process-survives", Key: fmt.Sprintf("%s/%s/%s/%s", p, kind, comp, crashSite(stderr.String())), What: what,
-					Replay: map[string]interface{}{"component": comp, "scenario": runningDesc, "stderr_head": trunc(stderr.String(), 3000)}})
+					Replay: map[string]interface{}{"component": comp, "index": running, "scenario": runningDesc, "stderr_head": trunc(stderr.String(), 3000)}})
 			}
 			rp.Count("worker-" + kind)
 			next = running + 1
@@ -147,14 +190,10 @@ func parentLoop(comp string, dir string, total int, args []string, rp *rep.Repor
 				rp.Note("gave up after 200 worker crashes")
 				break
 			}
-		} else if err != nil && next < total {
+		} else if err != nil && next < hi {
 			rp.Note("worker exited abnormally without a running scenario: %v %s", err, trunc(stderr.String(), 500))
 			next++
 		}
-	}
-	for _, f := range files {
-		must(f[0].Close())
-		must(f[1].Close())
 	}
 }
 
